@@ -27,7 +27,7 @@ CONFIG = {
 
 OBJ_KINDS = ['makespan', 'flowtime', 'priorities', 'start_latest', 'greatest_start', 'indicator_min', 'indicator_max',
              'bounded_min', 'bounded_min_tight', 'bounded_min_tight', 'bounded_max', 'bounded_max', 'multi', 'multi_weighted',
-             'weighted_tradeoff', 'optional_bound', 'weight_zero']
+             'weighted_tradeoff', 'optional_bound', 'weight_zero', 'cost_mixed', 'utilization_max']
 
 
 # ----------------------------------------------------------------------------------------------
@@ -184,6 +184,22 @@ def add_objectives(ps, im, kinds, r):
             ps.ObjectiveMinimizeIndicator(target=indb, weight=0)
             ps.ObjectiveMinimizeIndicator(target=inda, weight=1)
             pb._verif_declared = [(wb._end, 0), (wa._end, 1)]
+        elif k == 'cost_mixed':
+            # built-in cost objective whose value may be negative: one worker is paid, the other one brings money in; with both
+            # durations at their minimum the total is 0, the optimum is lower (the indicator has no natural bound)
+            wp = ps.Worker(name='Paid', cost=ps.ConstantFunction(value=2))
+            wn = ps.Worker(name='Refund', cost=ps.ConstantFunction(value=-2))
+            ta = ps.VariableDurationTask(name='CA', min_duration=1, max_duration=2)
+            tb = ps.VariableDurationTask(name='CB', min_duration=1, max_duration=r.choice([2, 3]))
+            ta.add_required_resource(wp)
+            tb.add_required_resource(wn)
+            ps.ObjectiveMinimizeResourceCost(list_of_resources=[wp, wn])
+        elif k == 'utilization_max':
+            # built-in utilisation objective on a worker created for it
+            wu = ps.Worker(name='Util')
+            tu = ps.VariableDurationTask(name='CU', min_duration=1, max_duration=3)
+            tu.add_required_resource(wu)
+            ps.ObjectiveMaximizeResourceUtilization(resource=wu)
         elif k == 'multi_weighted':
             # weighted sum of a raw expression objective and an indicator objective
             w1, w2 = r.choice([2, 3]), r.choice([0, 1, 2])       # a weight of 0 switches an objective off
@@ -406,7 +422,8 @@ def analyse(out, case, solver, tasks, varlist, outs, marks, sp, z3):
             bound = obj._bounds[0] if obj.kind == 'minimize' else obj._bounds[1]
             # only the harness declares bounds, and only true ones (the hypothesis of C07_bound_stop): an objective that carries
             # bounds nobody declared would make the loop stop on a value that is no bound
-            if case.get('objs') and case['objs'][0] not in ('bounded_min', 'bounded_min_tight', 'bounded_max'):
+            natural = case.get('objs') and case['objs'][0] == 'utilization_max' and tuple(obj._bounds) == (0, 100)   # a percentage
+            if case.get('objs') and case['objs'][0] not in ('bounded_min', 'bounded_min_tight', 'bounded_max') and not natural:
                 out.setdefault('presem', []).append(('objective-carries-bounds-nobody-declared', str(obj._bounds), None))
                 bound = None
     nchecks = (max(answers) + 1) if answers else 0
